@@ -136,6 +136,9 @@ type Fabric struct {
 	listeners map[string]*simnet.SimListener
 	Dials     int
 	DialFails int
+	// Started counts connection attempts from the moment the dialler calls the
+	// protocol, i.e. before the attempt's latency has passed.
+	Started int
 	// DialLatency is the simulated time one connection attempt takes before
 	// the listener sees it (a TCP connect is never instantaneous). Chosen per
 	// run by the harness.
@@ -145,6 +148,20 @@ type Fabric struct {
 // NewFabric returns an empty fabric.
 func NewFabric(cn *simnet.ConnNet) *Fabric {
 	return &Fabric{CN: cn, listeners: map[string]*simnet.SimListener{}}
+}
+
+// Register makes an existing listener reachable under a host name.
+func (f *Fabric) Register(host string, ln *simnet.SimListener) {
+	f.mu.Lock()
+	f.listeners[host] = ln
+	f.mu.Unlock()
+}
+
+// StartedCount returns Started.
+func (f *Fabric) StartedCount() int {
+	f.mu.Lock()
+	defer f.mu.Unlock()
+	return f.Started
 }
 
 type simProtocol struct{ f *Fabric }
@@ -157,6 +174,9 @@ func (sp simProtocol) Name() string { return "sim" }
 // PeerWith does what protocol_tcp.go does after dialing: run the shipped link
 // setup on the new connection.
 func (sp simProtocol) PeerWith(p *peering.Peering, u *m.PeeringURL, ip netip.Addr) (peering.Link, error) {
+	sp.f.mu.Lock()
+	sp.f.Started++
+	sp.f.mu.Unlock()
 	if sp.f.DialLatency > 0 {
 		time.Sleep(sp.f.DialLatency)
 	}
